@@ -8,6 +8,7 @@ namespace RichModel
 namespace Wrap
 open Text
 variable {σ : Type}
+variable {chars : Bool}
 
 /-- made of blanks and ellipsis characters only (whatever their styles) -/
 def Filler (v : List (Char × List σ)) : Prop := ∀ p ∈ v, p.1 = ' ' ∨ p.1 = '…'
@@ -55,8 +56,8 @@ theorem Kept.trans {L M N : Text σ} (h1 : Kept L M) (h2 : Kept M N) : Kept L N 
 theorem kept_of_take (L M : Text σ) (hi : Inv M) (hs : M.style = L.style) (k : Nat) (hv : M.view = L.view.take k) :
     Kept L M := ⟨hi, hs, [], k, [], by simp [hv], Filler.nil, Filler.nil⟩
 
-theorem rstripEnd_kept (t : Text σ) (h : Inv t) (size : Nat) : Kept t (t.rstripEnd Variant.repaired (size : Int)) := by
-  obtain ⟨k, _, _, hv, hi, hs⟩ := rstripEnd_spec t h size
+theorem rstripEnd_kept (cw : Char → Nat) (t : Text σ) (h : Inv t) (size : Nat) : Kept t (Text.rstripEndW chars cw Variant.repaired t (size : Int)) := by
+  obtain ⟨k, _, _, hv, hi, hs⟩ := rstripEnd_spec (chars := chars) cw t h size
   exact kept_of_take _ _ hi hs k hv
 
 theorem rstrip_kept (t : Text σ) (h : Inv t) : Kept t t.rstrip := by
@@ -136,13 +137,13 @@ theorem padRight_int_kept (t : Text σ) (h : Inv t) (x : Int) : Kept t (t.padRig
     simp only [List.replicate_zero, List.append_nil, setPlain_self]
     split <;> exact Kept.refl t h
 
-theorem padCount_repaired (x : Int) : padCount WVariant.repaired x = ((x.toNat : Nat) : Int) := by
+theorem padCount_repaired (x : Int) : padCount (WVariant.fixed chars) x = ((x.toNat : Nat) : Int) := by
   show (if false = true then x else max 0 x) = _
   simp only [Bool.false_eq_true, if_false]; omega
 
 /-- `Lines.justify` (left / center / right / default) on one line, every overflow mode -/
 theorem justifyOne_kept (cw : Char → Nat) (hsp : cw ' ' = 1) (h2 : ∀ c, cw c ≤ 2) (w : Nat) (hw : 1 ≤ w) (j : Justify)
-    (o : Overflow) (l : Text σ) (h : Inv l) : Kept l (justifyOne WVariant.repaired cw w j o l) := by
+    (o : Overflow) (l : Text σ) (h : Inv l) : Kept l (justifyOne (WVariant.fixed chars) cw w j o l) := by
   cases j with
   | full => exact Kept.refl l h
   | default => exact Kept.refl l h
@@ -164,10 +165,10 @@ theorem justifyOne_kept (cw : Char → Nat) (hsp : cw ' ' = 1) (h2 : ∀ c, cw c
 /-- **every overflow mode**: what `Text.wrap` finally makes of a divided line is filler, a prefix of the line's
 styled string (every character with exactly its effective style), filler -/
 theorem finishLine_kept (cw : Char → Nat) (hsp : cw ' ' = 1) (h2 : ∀ c, cw c ≤ 2) (w : Nat) (hw : 1 ≤ w) (j : Justify)
-    (o : Overflow) (L : Text σ) (h : Inv L) : Kept L (finishLine WVariant.repaired cw w j o L) := by
+    (o : Overflow) (L : Text σ) (h : Inv L) : Kept L (finishLine (WVariant.fixed chars) cw w j o L) := by
   unfold finishLine
-  have h0 := rstripEnd_kept L h w
-  have h1 := justifyOne_kept cw hsp h2 w hw j o _ h0.inv
+  have h0 := rstripEnd_kept (chars := chars) cw L h w
+  have h1 := justifyOne_kept (chars := chars) cw hsp h2 w hw j o _ h0.inv
   exact (h0.trans h1).trans (truncate_kept cw hsp h2 _ h1.inv w hw o false)
 
 end Wrap
